@@ -291,15 +291,22 @@ def linearize_measure_contents(part, start, end, state):
         The contents of measure in document order
     """
     splits = [start]
-    q_times = part.quarter_durations(start.t, end.t)
-    if len(q_times) > 0:
-        quarter = start.quarter
-        tp = start.next
-        while tp and tp != end:
-            if tp.quarter != quarter:
+    quarter = start.quarter
+    tp = start
+    for t, q in part.quarter_durations(start.t, end.t):
+        if t > start.t and q != quarter:
+            while tp.next and tp.next.t <= t:
+                tp = tp.next
+            if tp.t == t:
                 splits.append(tp)
-                quarter = tp.quarter
-            tp = tp.next
+            else:
+                # nothing starts or ends at the change of divisions: split at
+                # a stand-in for the missing time point (not added to the part)
+                split = score.TimePoint(int(t), int(q))
+                split.prev = tp
+                split.next = tp.next
+                splits.append(split)
+        quarter = q
 
     splits.append(end)
     contents = []
